@@ -276,6 +276,9 @@ func (c *client) SendBatch(ctx context.Context, batch []hrpc.Call) (
 	var unretryableErrorSeen bool
 	var retries []hrpc.Call
 	backoff := backoffStart
+	// immediateRetries counts the rounds that were retried without
+	// backoff, see the comment for region.ServerError in SendRPC.
+	immediateRetries := 0
 
 	for {
 		// findClients reports errors by position in batch, which in a
@@ -330,7 +333,7 @@ func (c *client) SendBatch(ctx context.Context, batch []hrpc.Call) (
 		if len(retries) == 0 || ctx.Err() != nil {
 			break
 		}
-		if needBackoff {
+		if needBackoff || immediateRetries > 1 {
 			sp.AddEvent("retrySleep")
 			var err error
 			backoff, err = sleepAndIncreaseBackoff(ctx, backoff)
@@ -339,6 +342,7 @@ func (c *client) SendBatch(ctx context.Context, batch []hrpc.Call) (
 			}
 		} else {
 			sp.AddEvent("retry")
+			immediateRetries++
 		}
 		// Set state for next loop iteration
 		batch = retries
